@@ -523,6 +523,14 @@ def clone_coverage(idx: Index, ci: ClassInfo, clone: FuncInfo) -> Tuple[Dict[str
                 if m is not None and m.name not in ("clone",):
                     for f in _stores_through(m.node, "self"):
                         covered.setdefault(f, c)
+            elif isinstance(c.func.value, ast.Name) and c.func.value.id == "self" and c.func.attr.startswith("_") and recv in args:
+                # any other private helper of the class that is handed the copy: self._copy_parts_to(new)
+                target = ci.lookup(c.func.attr)
+                if target is not None and target.name not in ("clone", "__init__"):
+                    params = [p for p in target.params() if p != "self"]
+                    pos = args.index(recv)
+                    if pos < len(params):
+                        absorb(target, params[pos], depth - 1)
 
     if var is not None:
         absorb(clone, var, 3)
